@@ -41,10 +41,10 @@ impl Check for C13 {
         "C13"
     }
     fn rule(&self) -> String {
-        "case = 1-5 terminals from random regex ASTs over {a,b,c,0,+,.} (literals, classes, negated classes, '.', alternation, *, +, ?, groups; printed as '..', \"..\" or /../; overlapping patterns, prefixes of each other, positive/negative lookahead) declared each by its own primary production in a known order, 1-3 scanner states with random membership, %on .. %enter/%push/%pop transitions (pop on empty stack included), auto newline/whitespace on or off, %allow_unmatched, line/block comments; 6 inputs from pattern samples, stray characters, non-ASCII, comments and separators. Oracle: reference lexer implementing the documented rules on the regex ASTs (longest non-empty match, first declared on ties, lookahead at the match end, mode switching) compared token by token (type, byte span) with the real TokenStream drained through its public API for lookahead sizes 1, 2, 3, 5 and with the leaves of the parse tree for accepted inputs. Evaluations = (input, k) drains. Non-trivial = input where two patterns match at one position, or a state switch occurs; distinct by (grammar, input)".into()
+        "case = 1-5 terminals from random regex ASTs over {a,b,c,0,+,.} (literals, classes, negated classes, '.', alternation, *, +, ?, groups; printed as '..', \"..\" or /../; overlapping patterns, prefixes of each other, positive/negative lookahead) declared each by its own primary production in a known order, 1-3 scanner states with random membership (a third of the multi-state cases give one or two terminals a further occurrence with another state list, behind a marker terminal: the terminal then belongs to the union of the states), %on .. %enter/%push/%pop transitions (pop on empty stack included), auto newline/whitespace on or off, %allow_unmatched, line/block comments; 6 inputs from pattern samples, stray characters, non-ASCII, comments and separators. Oracle: reference lexer implementing the documented rules on the regex ASTs (longest non-empty match, first declared on ties, lookahead at the match end, mode switching) compared token by token (type, byte span) with the real TokenStream drained through its public API for lookahead sizes 1, 2, 3, 5 and with the leaves of the parse tree for accepted inputs. Evaluations = (input, k) drains. Non-trivial = input where two patterns match at one position, or a state switch occurs; distinct by (grammar, input)".into()
     }
     fn strategy(&self, _tier: Tier) -> BoxedStrategy<ScanCase> {
-        scan_case_strategy(ScanParams::default(), 6)
+        scan_case_strategy(ScanParams { multi_occ: true, ..ScanParams::default() }, 6)
     }
     fn cases(&self, tier: Tier) -> u32 {
         tier.pick(3000, 80000)
